@@ -24,14 +24,14 @@ SPECIFIC = {
  "C06": "refinement of the decision ladder (PageStep by AbsPage) in MC_core/MC_we/MC_wesub; clauses C06.created/.exc/.potential; rule installation compared up to the order of re-insertion; spec Match cross-checked against the real regexes",
  "C07": "invariant NetworkInv (fast and slow algorithms = aggregate, both directions, auto on/off); relational clauses C07.agg/.slow/.transpose/.tallies/.once",
  "C08": "invariant WeLinksInv (7 switch combinations); relational clauses C08.pagelinks/.once/.cited/.citing/.degree/.membership",
- "C09": "invariant PaginationInv (every page size 1..n+1, every resume point, crawled-only on/off); session clauses with page insertions between calls, exact prediction of every answer and token (bind.pag), independent token decoder",
+ "C09": "invariant PaginationInv (every page size 1..n+1, every resume point, crawled-only on/off); PagSession/MC_pag: a session interleaved with page insertions in every possible way (TokenValid, NoRepeat, NothingSkipped, NoInvention, ExactSize, Ordered); session clauses with page insertions between calls, exact prediction of every answer and token (bind.pag), independent token decoder",
  "C10": "invariant PagLinksInv; session clauses C10.resume/.size/.once/.subset/.union/.token, exact prediction bind.pagl",
  "C11": "reopen is a stutter of the spec; lockstep twin that is never closed (C11.twin.*), C11.same/.answers on every reopen, C11.clear against a real fresh index, overwrite=True re-creation",
  "C12": "invariants IdsBounded/Monotone; C12.fresh judged against the largest id the trace has seen issued (survives deletions and reopen), C12.distinct, C12.shared; reopen-right-after-creation pattern",
  "C13": "invariants FlagInv/HierarchyInv (pruned traversal = declarative children); relational clauses C13.parents/.children",
  "C14": "every query is UNCHANGED store in the spec; on the real code SHA-256 of both stores around every read-only request over an argument grid (absent LRUs, unknown webentities, wrong prefixes, bad tokens, forgotten rules)",
  "C15": "both back-ends validated against the same deterministic spec and against each other step by step (results, enumerations, touched blocks, answers); mmap reader probed right after each request",
- "C16": "ALL interleavings of 2-3 generators model-checked (MC_coop, MC_coopnet; spec mutants show the lost update); every next() of the real generators (crawl, rule, page, cited/citing and network queries) validated against TraphCoop!RunGen; C16.final/.sym/.bounds",
+ "C16": "ALL interleavings of 2-3 generators model-checked (MC_coop, MC_coopnet; spec mutants show the lost update); every next() of the real generators (crawl, rule, page, cited/citing, child, page-link, fast and slow network, most-linked queries) validated against TraphCoop!RunGen; C16.final/.sym/.bounds",
  "C17": "the whole LRU grammar is the state space of MC_var, every law an invariant; rows from lru_variations / expand_prefix (fresh and long-lived index) / automatic creation judged against the token-level definition",
  "C18": "CrashSafe: every cut of every request's write list in every small history (MC_crash); every cut (block and byte granularity) of real write logs materialized and reopened by the real code, rows judged by TLC (CrashRows)",
  "C19": "invariant Accounting and action property Monotone; clauses C19.trie/.links/.len/.readd/.metrics with stems at 75..148 bytes and exact multiples; unreferenced blocks via TstInv",
